@@ -657,6 +657,7 @@ func (x *Exec) slice(st *State, fr *Frame, in *ssa.Slice) Val {
 		ln := sLen(b.S, b.E)
 		hi := getHi(ln)
 		x.safe(st, fr, "slice", tAnd(tCmp("<=", "0", lo), tCmp("<=", lo, hi), tCmp("<=", hi, ln)), in)
+		st.assume(tAnd(tCmp("<=", "0", lo), tCmp("<=", lo, hi), tCmp("<=", hi, ln)))
 		if lo == "0" && hi == ln {
 			return b
 		}
@@ -677,7 +678,8 @@ func (x *Exec) makeSlice(st *State, fr *Frame, in *ssa.MakeSlice) Val {
 	if x.inputSize != "" && fr.parent == nil || x.inputSize != "" {
 		esz := sizeofApprox(et)
 		bound := tAdd("4096", tMulC("16", x.inputSize))
-		x.oblige(st, fr, x.ordinal(fr.fn, in, "safe.alloc"), "safe.alloc", "", tCmp("<=", tMulC(num(esz), cp), bound), in, nil)
+		x.oblige(st, fr, x.ordinal(fr.fn, in, "safe.alloc"), "safe.alloc", "", tCmp("<=", tMulC(num(esz), cp), bound), in,
+			map[string]string{"amplify": tCmp(">", tMulC(num(esz), cp), tAdd(bound, "4000000"))})
 	}
 	st.assume(tAnd(tCmp("<=", "0", ln), tCmp("<=", ln, cp)))
 	sort := x.w.SeqSort(x.w.SortOf(et))
